@@ -102,6 +102,25 @@ def one_case(rec, rng, cid, keys):
     if not rec.check(ok, "shape", "output shape %s vs %s"
                      % (getattr(F, "shape", None), xin.shape), case):
         return
+    # -- same array object evaluated again after in-place edits (abscissa
+    # reversed in place; the array returned before post-processed in place)
+    Fkeep = F.copy()
+    xin[:] = x_before[::-1]
+    F2 = md.model(p, xin)
+    rec.event("re-evaluations on the same array object")
+    rec.check(isinstance(F2, np.ndarray) and F2.shape == Fkeep.shape and
+              np.array_equal(F2[::-1], Fkeep), "order/reversed-in-place",
+              "abscissa reversed in place: the output does not follow the "
+              "order of the abscissa", case)
+    xin[:] = x_before
+    if F.flags.writeable:
+        F -= 1.0
+    F3 = md.model(p, xin)
+    rec.check(isinstance(F3, np.ndarray) and np.array_equal(F3, Fkeep),
+              "repeatability/returned-array-edited",
+              "editing the returned array in place changes the next "
+              "evaluation with the same arguments", case)
+    F = Fkeep
     Frev = md.model(p, xin[::-1].copy())
     rec.check(np.array_equal(Frev[::-1], F), "order/reversal",
               lambda: "model(x[::-1])[::-1] != model(x); first diff at %d"
